@@ -29,20 +29,20 @@ Definition oc_eqb (a b : oc) : bool :=
   opt_eqb json_eqb (oc_value a) (oc_value b).
 
 (* observed end state of a task *)
-Inductive otend := OFinished (o : oc) | OCancelled | OExcepted (printable : bool).
+Inductive otend := OFinished (o : oc) | OCancelled | OExcepted.
 
 Definition otend_of (e : tend) : otend :=
   match e with
   | Finished r => OFinished (oc_of_sres r)
   | Cancelled => OCancelled
-  | Excepted p => OExcepted p
+  | Excepted => OExcepted
   end.
 
 Definition otend_eqb (a b : otend) : bool :=
   match a, b with
   | OFinished x, OFinished y => oc_eqb x y
   | OCancelled, OCancelled => true
-  | OExcepted s, OExcepted t => Bool.eqb s t
+  | OExcepted, OExcepted => true
   | _, _ => false
   end.
 
